@@ -282,7 +282,8 @@ def coo_arg_sig(ra, rb, diffs, keymap):
 
 def incomplete_sig(text, keys):
     """'incomplete-residue-protonation' if every given file index lies within 15 A of an amino-acid residue whose
-    heavy-atom set differs from its template (open finding F16)."""
+    heavy-atom set differs from its template or that is bonded (reference rule) into another residue (open finding
+    F16)."""
     from vlib import templates
     entries = pdbio.parse(text)
     atoms = pdbio.atoms_of(entries)
@@ -293,6 +294,21 @@ def incomplete_sig(text, keys):
             want, _b = templates.template(t, "OXT" in names)
             if names != sorted(want):
                 bad.extend(ats)
+    # ... or that is covalently entangled with another residue (interpenetrating threaded side chain: bonds by the
+    # reference rule other than the peptide link and S-S): its atoms have irregular bond counts just the same
+    heavy = [a for a in atoms if not a.is_h]
+    grid = gen.Grid(heavy)
+    for a in heavy:
+        if a.rec != "ATOM":
+            continue
+        for b in grid.near(a, 2600):
+            if b is a or (b.chain, b.resnum, b.icode) == (a.chain, a.resnum, a.icode):
+                continue
+            if {a.aname, b.aname} == {"N", "C"} or (a.aname == "SG" and b.aname == "SG"):
+                continue
+            if refs.ref_bonded(a.element, a.xyz, b.element, b.xyz)[0]:
+                bad.append(a)
+                break
     if not bad or not keys:
         return None
     for k in keys:
